@@ -12,11 +12,18 @@
      BInv a          every bitmap is a well-formed summary tree (a parent bit is set iff the child word is all
                      ones, padding bits set, root <= 64 entries), bitmap k has len/2^k entries, no page is
                      free at two orders (no_nested), below max_order no two buddies are both free (merged).
-   Not proved (validated on every run by the harness oracle instead, see design.d/C14.md):
-     alloc_lowest returns the LOWEST free index; Allocators::resize_to keeps the tracker invariant. *)
+   Page-manager level (Alloc/MemP.v, Alloc/MemHistP.v):
+     minv m          the layout is well-formed, tinv holds, the allocators agree with the layout (count, lengths,
+                     max_order) and every bitmap tree has the height its capacity needs
+     mgood (m, live) minv m; every live block (region, index, order) lies inside an existing region and none of
+                     its pages is free; live blocks are pairwise disjoint
+   Also proved here (second part of the file): alloc_lowest returns the LOWEST free index; Allocators::resize_to,
+   try_shrink and grow keep the tracker invariant (any history of page-manager operations); BInv implies redb's
+   debug_check_consistency; observational equality after reload. *)
 From Coq Require Import List NArith Bool Lia.
-From RV Require Import Base.Bytes Alloc.Bitmap Alloc.Buddy Alloc.Region Alloc.BitmapP Alloc.TreeP Alloc.BuddyP
-  Alloc.ResizeP Alloc.LowestP Alloc.SerialP Alloc.OpsP Alloc.RegionP.
+From RV Require Import Base.Bytes Gen.Consts Alloc.Bitmap Alloc.Buddy Alloc.Region Alloc.BitmapP Alloc.TreeP Alloc.BuddyP
+  Alloc.ResizeP Alloc.LowestP Alloc.SerialP Alloc.OpsP Alloc.RegionP
+  Alloc.LowestMinP Alloc.ConsistP Alloc.ObsP Alloc.TrackerP Alloc.CapP Alloc.LayoutP Alloc.TrailingP Alloc.MemP Alloc.MemHistP.
 Import ListNotations.
 Open Scope N_scope.
 
@@ -72,7 +79,7 @@ Theorem alloc_complete_above_max_order : forall a k,
   BInv a -> bmax a < k -> blen a < 2 ^ (bmax a + 1) -> ~ exists i, blk_free a k i.
 Proof. exact no_block_above. Qed.
 
-(* alloc_lowest: same guarantees as alloc (that the index is the lowest is validated, not proved) *)
+(* alloc_lowest: same guarantees as alloc (that the index is the lowest: alloc_lowest_min below) *)
 Theorem alloc_lowest_sound : forall a k,
   BInv a ->
   match buddy_alloc_lowest a k with
@@ -172,7 +179,7 @@ Theorem tracker_sound_record_alloc : forall m r i k,
   tinv (als m) -> tinv (als (snd (mem_record_alloc m r i k))).
 Proof. exact mem_record_alloc_tinv. Qed.
 
-(* Allocators::new establishes the tracker invariant (resize_to: validated per run, not proved) *)
+(* Allocators::new establishes the tracker invariant (resize_to / try_shrink / grow: see below) *)
 Theorem tracker_sound_new : forall l, tinv (allocators_new l).
 Proof. exact allocators_new_tinv. Qed.
 
@@ -241,6 +248,274 @@ Example ex_tracker :
   let al := allocators_new (mkLayout 16 2 (Some 5)) in
   tinv al /\ fst (allocate_retry 5 al 2 false) = Some (0, 0) /\ tracker_find_free (trk al) 3 = Some 0.
 Proof. split; [apply tracker_sound_new|]. vm_compute. split; reflexivity. Qed.
+
+(* ================================================================================================
+   Second part: what used to be validated per run only.
+   ================================================================================================ *)
+
+(* ---------------------------------------------------------------- alloc_lowest returns the lowest index *)
+
+(* alloc_lowest a k = Some x: block k/x is completely free and x is the LEAST index of an aligned completely
+   free block of order k; alloc_lowest refuses exactly when alloc refuses, i.e. (k <= max_order) exactly when
+   no aligned completely free block of order k exists *)
+Theorem alloc_lowest_min : forall a k,
+  BInv a ->
+  (forall x a', buddy_alloc_lowest a k = (Some x, a') ->
+     blk_free a k x /\ (forall y, blk_free a k y -> x <= y))
+  /\ (fst (buddy_alloc_lowest a k) = None <-> fst (buddy_alloc a k) = None)
+  /\ (k <= bmax a -> (fst (buddy_alloc_lowest a k) = None <-> ~ exists i, blk_free a k i)).
+Proof. exact alloc_lowest_min_full. Qed.
+
+(* what alloc_inner answers: the leftmost descendant of the least marked block of the first order that has one *)
+Theorem alloc_value : forall fuel L a k x a',
+  BInvL L a -> alloc_inner fuel a k = (Some x, a') ->
+  exists j0 i0, k <= j0 /\ fr a j0 i0 = true /\ x = i0 * 2 ^ (j0 - k)
+    /\ (forall i, i < i0 -> fr a j0 i = false)
+    /\ (forall j, k <= j -> j < j0 -> ~ has_free a j).
+Proof. exact alloc_inner_value. Qed.
+
+(* ---------------------------------------------------------------- debug_check_consistency follows from BInv *)
+
+(* consistentb is the model of BuddyAllocator::debug_check_consistency: redb's own debug assertion cannot fire
+   on a state satisfying the invariant ... *)
+Theorem consistent_of_inv : forall a, BInv a -> consistentb a = true.
+Proof. exact consistentb_of_BInv. Qed.
+
+(* ... hence on no state reachable through the modelled buddy operations ... *)
+Theorem consistent_all_programs : forall n cap os s',
+  steps (buddy_new n cap, []) os s' -> consistentb (fst s') = true.
+Proof. exact consistent_steps. Qed.
+
+(* ---------------------------------------------------------------- observational equality after reload *)
+
+(* run a os: the return values of the operations of os and the final state (Alloc/ObsP.v).  For every valid
+   program, running it on from_bytes (to_vec a) gives the same return values and the same serialised bytes as
+   running it on a (the in-memory states may differ in trimmed capacity words) *)
+Theorem reload_observationally_equal : forall a live os s',
+  good (a, live) -> buddy_small a -> steps (a, live) os s' ->
+  let b := buddy_from_bytes (buddy_to_vec a) in
+  fst (run b os) = fst (run a os)
+  /\ buddy_to_vec (snd (run b os)) = buddy_to_vec (snd (run a os))
+  /\ snd (run a os) = fst s'.
+Proof. exact reload_obs_equal. Qed.
+
+Theorem reload_observationally_equal_from_new : forall n cap os0 a live os s',
+  steps (buddy_new n cap, []) os0 (a, live) -> buddy_small a -> steps (a, live) os s' ->
+  let b := buddy_from_bytes (buddy_to_vec a) in
+  fst (run b os) = fst (run a os)
+  /\ buddy_to_vec (snd (run b os)) = buddy_to_vec (snd (run a os)).
+Proof. exact reload_obs_equal_from_new. Qed.
+
+(* states that agree on lengths, max_order, every mark and the tree heights serialise to the same bytes *)
+Theorem same_marks_same_bytes : forall a b, eqv a b -> buddy_to_vec a = buddy_to_vec b.
+Proof. exact eqv_to_vec. Qed.
+
+(* ---------------------------------------------------------------- the tracker through resize_to / try_shrink / grow *)
+
+(* Allocators::resize_to, growing (existing regions resized and re-marked free at their highest free order, new
+   regions pushed with the capacity of a full region, the tracker widened on demand) or shrinking (dropped
+   regions marked full BEFORE the allocators are drained, the new last region cut), under the code's own
+   assertions (resize_to_pre: regions only grow on the growing path and the trees have room; the cut tail is
+   free on the shrinking path) *)
+Theorem tracker_sound_resize_to : forall al nl, tinv al -> resize_to_pre al nl -> tinv (resize_to al nl).
+Proof. exact resize_to_tinv. Qed.
+
+(* the same at the page-manager level, with the assertions discharged from the invariant minv:
+   resize_ok m nl = nl keeps the region size and either no region shrinks, or the completely free last region is
+   dropped, or a free tail of the last region is cut *)
+Theorem tracker_sound_resize_to_mem : forall m nl,
+  minv m -> resize_ok m nl -> minv (mkMem nl (resize_to (als m) nl)).
+Proof. exact minv_resize_to. Qed.
+
+(* minv contains the tracker invariant (and with it BInv of every region) *)
+Theorem minv_tracker : forall m, minv m -> tinv (als m).
+Proof. exact minv_tinv. Qed.
+
+Theorem tracker_sound_mem_new : forall l, lay_ok l -> minv (mem_new l).
+Proof. exact minv_new. Qed.
+
+(* BuddyAllocator::new(n, cap) pads the height of every bitmap tree so that resize can grow the region up to cap
+   pages without a tree needing a new level (the assertion at the end of BtreeBitmap::resize); no operation
+   changes a tree height, so this stays true in every reachable state (part of minv).  Likewise the region
+   tracker made by RegionTracker::new can be widened up to MAX_REGIONS regions *)
+Theorem new_resize_capacity : forall n cap m, m <= cap -> resize_trees_pre (buddy_new n cap) m = true.
+Proof. exact rcap_new. Qed.
+
+Theorem tracker_new_capacity : forall regions orders j n,
+  j < nlen (tracker_new regions orders) -> n <= MAX_REGIONS ->
+  bt_resize_pre (lget (tracker_new regions orders) j empty_bt) n = true.
+Proof. exact tracker_new_cap. Qed.
+
+(* trailing_free_pages (used by try_shrink) is the length of the longest free suffix of the region *)
+Theorem trailing_free_pages_correct : forall a,
+  BInv a -> 1 <= blen a ->
+  let tf := trailing_free_pages a in
+  tf <= blen a /\ (forall p, blen a - tf <= p -> p < blen a -> pfree a p)
+  /\ (tf < blen a -> ~ pfree a (blen a - tf - 1)).
+Proof. exact trailing_free_pages_spec. Qed.
+
+(* try_shrink (+ reduce_last_region + resize_to) *)
+Theorem tracker_sound_try_shrink : forall m force, minv m -> minv (snd (mem_try_shrink m force)).
+Proof. exact minv_try_shrink. Qed.
+
+(* grow(): the layout arithmetic of grow / DatabaseLayout::calculate + resize_to, while the database stays
+   within MAX_REGIONS regions *)
+Theorem tracker_sound_grow : forall m k,
+  minv m -> num_regions (grow_layout (lay m) k) <= MAX_REGIONS ->
+  minv (mkMem (grow_layout (lay m) k) (resize_to (als m) (grow_layout (lay m) k))).
+Proof. exact minv_grow. Qed.
+
+(* allocate_helper: retry, grow, retry *)
+Theorem tracker_sound_allocate_helper : forall m k lowest,
+  minv m -> k <= MAX_MAX_PAGE_ORDER -> num_regions (grow_layout (lay m) k) <= MAX_REGIONS ->
+  minv (snd (mem_allocate m k lowest)).
+Proof. exact minv_allocate. Qed.
+
+(* one step of any page-manager level operation (allocate_helper_retry, allocate_helper, free_helper,
+   mark_page_allocated, try_shrink, resize_to) keeps mgood *)
+Theorem mem_step_good : forall s o s', mgood s -> mstep s o s' -> mgood s'.
+Proof. exact mstep_good. Qed.
+
+(* over ANY history from Allocators::new on a well-formed layout: the tracker invariant holds, every region
+   satisfies BInv, and a region that holds a completely free aligned block of order j >= k is not marked full at
+   order k (find_free(k) answers some region) -- "never reported full" *)
+Theorem tracker_sound_all_histories : forall l os m' live',
+  lay_ok l -> msteps (mem_new l, []) os (m', live') ->
+  tinv (als m')
+  /\ (forall r, r < num_regions (lay m') -> BInv (reg (als m') r))
+  /\ (forall r k j i, r < num_regions (lay m') -> k <= j -> j <= bmax (reg (als m') r) ->
+        blk_free (reg (als m') r) j i ->
+        tracker_bit (trk (als m')) k r = false /\ tracker_find_free (trk (als m')) k <> None).
+Proof. exact tracker_sound_histories. Qed.
+
+(* ... and redb's debug_check_consistency holds in every region of every reachable state *)
+Theorem consistent_all_histories : forall l os m' live' r,
+  lay_ok l -> msteps (mem_new l, []) os (m', live') -> r < num_regions (lay m') ->
+  consistentb (reg (als m') r) = true.
+Proof. exact consistent_histories. Qed.
+
+(* ---------------------------------------------------------------- live blocks across regions *)
+
+(* over any history: the blocks handed out (allocate_helper, allocate_helper_retry, mark_page_allocated) and not
+   yet freed are pairwise disjoint as (region, index, order) triples and lie inside the layout *)
+Theorem live_disjoint_regions : forall l os m' live',
+  lay_ok l -> msteps (mem_new l, []) os (m', live') ->
+  ForallOrdPairs rdisjoint live'
+  /\ Forall (fun b => let '(r, i, k) := b in
+                      r < num_regions (lay m') /\ (i + 1) * 2 ^ k <= region_pages (lay m') r
+                      /\ k <= MAX_MAX_PAGE_ORDER) live'.
+Proof. exact live_disjoint_regions_spec. Qed.
+
+(* what allocate_helper hands out lies inside the (possibly grown) layout and is disjoint from every live
+   block (this is what C20's address_in_bounds consumes) *)
+Theorem c14_alloc_inside_layout : forall m live k lowest r x m',
+  mgood (m, live) -> k <= MAX_MAX_PAGE_ORDER -> num_regions (grow_layout (lay m) k) <= MAX_REGIONS ->
+  mem_allocate m k lowest = (Some (r, x), m') ->
+  r < num_regions (lay m') /\ (x + 1) * 2 ^ k <= region_pages (lay m') r
+  /\ Forall (rdisjoint (r, x, k)) live.
+Proof. exact alloc_inside_layout. Qed.
+
+Theorem c14_live_inside_layout : forall m live r i k,
+  mgood (m, live) -> In (r, i, k) live ->
+  r < num_regions (lay m) /\ (i + 1) * 2 ^ k <= region_pages (lay m) r /\ k <= MAX_MAX_PAGE_ORDER.
+Proof. exact live_inside_layout. Qed.
+
+(* ================================================================ non-vacuity (second part) *)
+
+(* a fragmented 13-page allocator (pages 12 and 8-9 taken): alloc and alloc_lowest differ, alloc_lowest takes the
+   lowest block by splitting the order-3 block although smaller blocks are free higher up *)
+Definition ex_b : Buddy := snd (buddy_alloc (snd (buddy_alloc (buddy_new 13 16) 0)) 1).
+
+Example ex_lowest :
+  BInv ex_b
+  /\ fst (buddy_alloc ex_b 0) = Some 10 /\ fst (buddy_alloc_lowest ex_b 0) = Some 0
+  /\ fst (buddy_alloc ex_b 1) = Some 5 /\ fst (buddy_alloc_lowest ex_b 1) = Some 0
+  /\ fst (buddy_alloc_lowest ex_b 4) = None /\ consistentb ex_b = true
+  /\ trailing_free_pages (snd (buddy_alloc_lowest (buddy_new 13 16) 1)) = 11.
+Proof.
+  split.
+  - assert (exists live, execs (buddy_new 13 16, []) [OAlloc 0; OAlloc 1] = Some (ex_b, live)) as [live E]
+      by (vm_compute; eexists; reflexivity).
+    apply execs_sound in E. exact (proj1 (live_disjoint _ _ _ _ E)).
+  - vm_compute. repeat split; reflexivity.
+Qed.
+
+(* consistentb rejects a double free and unmerged buddies *)
+Example ex_inconsistent :
+  let a := snd (buddy_alloc (snd (buddy_alloc (snd (buddy_alloc (buddy_new 13 16) 0)) 2)) 1) in
+  consistentb a = true
+  /\ consistentb (with_ord a 0 (bt_clear (ord a 0) 2)) = false
+  /\ consistentb (with_ord a 1 (bt_clear (ord a 1) 0)) = false.
+Proof. vm_compute. repeat split; reflexivity. Qed.
+
+(* the hypotheses of reload_observationally_equal hold on a state whose capacity words differ from its reloaded
+   image, for two programs (one with a further reload and resizes); the return values are non-trivial *)
+Example ex_reload_valid :
+  good (obs_ex_a, obs_ex_live) /\ buddy_small obs_ex_a
+  /\ (exists s', steps (obs_ex_a, obs_ex_live) obs_ex_prog s') /\ (exists s', steps (obs_ex_a, obs_ex_live) obs_ex_prog2 s').
+Proof. exact obs_ex_valid. Qed.
+
+Example ex_reload_obs :
+  let b := buddy_from_bytes (buddy_to_vec obs_ex_a) in
+  fst (run obs_ex_a obs_ex_prog)
+  = [ROrd 0; RIdx (Some 1); RBool true; RIdx (Some 4); RUnit; RIdx None; RIdx (Some 5); ROrd 0]
+  /\ fst (run b obs_ex_prog) = fst (run obs_ex_a obs_ex_prog)
+  /\ buddy_to_vec (snd (run b obs_ex_prog)) = buddy_to_vec (snd (run obs_ex_a obs_ex_prog))
+  /\ b <> obs_ex_a
+  /\ snd (run b obs_ex_prog) <> snd (run obs_ex_a obs_ex_prog)
+  /\ fst (run b obs_ex_prog2) = fst (run obs_ex_a obs_ex_prog2)
+  /\ buddy_to_vec (snd (run b obs_ex_prog2)) = buddy_to_vec (snd (run obs_ex_a obs_ex_prog2)).
+Proof. exact obs_ex_obs. Qed.
+
+(* a history on a three-region layout (16 + 16 + 5 pages): the third order-4 request makes the file grow (the
+   partial trailing region is filled out to 16 pages and a new full region is created), a reservation in the new
+   region is accepted once and refused the second time, frees, a retry with alloc_lowest, then try_shrink drops
+   the (completely free) last region, cuts the new last region to 10 and then (forced) to 4 pages *)
+Definition ex_layout : Layout := mkLayout 16 2 (Some 5).
+Definition ex_history : list mop :=
+  [MAlloc 4 false; MAlloc 2 true; MAlloc 4 false; MAlloc 0 false; MRecord 3 2 1; MRecord 3 2 1; MFree 1 0 2;
+   MRetry 3 true; MFree 3 2 1; MShrink true; MRecord 2 8 3; MFree 2 0 4; MRecord 2 0 2; MShrink false; MShrink true].
+
+Example ex_history_valid :
+  lay_ok ex_layout
+  /\ exists s', msteps (mem_new ex_layout, []) ex_history s'
+       /\ snd s' = [(2, 0, 2); (1, 1, 3); (1, 4, 0); (0, 0, 4)]
+       /\ lay (fst s') = mkLayout 16 2 (Some 4)
+       /\ map blen (regs (als (fst s'))) = [16; 16; 4].
+Proof.
+  split; [unfold lay_ok, ex_layout, num_regions; cbn [full_pages num_full trailing]; lia|].
+  assert (option_map (fun s => (snd s, lay (fst s), map blen (regs (als (fst s))))) (mrun (mem_new ex_layout, []) ex_history)
+          = Some ([(2, 0, 2); (1, 1, 3); (1, 4, 0); (0, 0, 4)], mkLayout 16 2 (Some 4), [16; 16; 4])) as E
+    by (vm_compute; reflexivity).
+  destruct (mrun (mem_new ex_layout, []) ex_history) as [s'|] eqn:R; [|discriminate].
+  exists s'. split; [now apply mrun_sound|]. cbn [option_map] in E. injection E as E1 E2 E3. auto.
+Qed.
+
+(* hence mgood (and everything tracker_sound_all_histories / live_disjoint_regions say) holds on that state *)
+Example ex_history_good : exists s', mgood s' /\ snd s' = [(2, 0, 2); (1, 1, 3); (1, 4, 0); (0, 0, 4)].
+Proof.
+  destruct ex_history_valid as [Hl [s' [H [E _]]]]. exists s'. split; [|exact E].
+  exact (msteps_good _ _ _ (mgood_new _ Hl) H).
+Qed.
+
+(* the growing step of that history, seen alone: after two order-4 requests no region has 16 free pages, the retry
+   loop gives up, grow produces four full regions *)
+Example ex_grow :
+  let m := snd (mem_allocate (snd (mem_allocate (mem_new ex_layout) 4 false)) 4 false) in
+  fst (allocate_retry (retry_fuel (als m)) (als m) 4 false) = None
+  /\ grow_layout (lay m) 4 = mkLayout 16 4 None
+  /\ fst (mem_allocate m 4 false) = Some (2, 0)
+  /\ num_regions (grow_layout (lay m) 4) <= MAX_REGIONS.
+Proof. vm_compute. repeat split; try reflexivity. discriminate. Qed.
+
+(* resize_ok is satisfiable for a direct resize_to (the three-region layout grown to three full regions) *)
+Example ex_resize_ok : resize_ok (mem_new ex_layout) (mkLayout 16 3 None).
+Proof.
+  split; [reflexivity|]. split; [unfold lay_ok, num_regions; cbn [full_pages num_full trailing]; lia|]. cbv zeta. left.
+  split; [vm_compute; discriminate|]. split; [|vm_compute; discriminate].
+  intros r Hr. unfold rpages, ex_layout, mem_new, num_regions, last_region_pages. cbn [lay trailing num_full full_pages].
+  destruct (r =? 2 + 1 - 1), (r =? 3 - 1); lia.
+Qed.
 
 (* ------------------------------------------------------------------------------------------------
    Tie to the code (Gen/Fns.v is regenerated from buddy_allocator.rs / bitmap.rs / page_manager.rs on
